@@ -3,8 +3,8 @@
 // The same source is built once per golua build-tag set
 // (`-tags "verif <cfg>"`).  It reads one JSON request per line on stdin
 // ({"src": program text, "args": canonical chunk arguments}), runs the program
-// in a FRESH golua runtime (all libraries, host callbacks emit/tick; package
-// host), closes the runtime (pending __gc finalizers run then and their emits
+// in a FRESH golua runtime (all libraries except io, host callbacks emit/tick;
+// package host), closes the runtime (pending __gc finalizers run then and their emits
 // belong to the trace) and prints the canonical observation as one JSON line.
 //
 // The runner knows nothing about the oracle; the check binary (cmd/c14)
@@ -22,10 +22,41 @@ import (
 	"strconv"
 	"time"
 
+	"github.com/arnodel/golua/lib"
+	"github.com/arnodel/golua/lib/base"
+	"github.com/arnodel/golua/lib/coroutine"
+	"github.com/arnodel/golua/lib/debuglib"
+	"github.com/arnodel/golua/lib/golib"
+	"github.com/arnodel/golua/lib/mathlib"
+	"github.com/arnodel/golua/lib/oslib"
+	"github.com/arnodel/golua/lib/packagelib"
+	"github.com/arnodel/golua/lib/runtimelib"
+	"github.com/arnodel/golua/lib/stringlib"
+	"github.com/arnodel/golua/lib/tablelib"
+	"github.com/arnodel/golua/lib/utf8lib"
 	rt "github.com/arnodel/golua/runtime"
 
 	"verif/engine/host"
 )
+
+// loadLibs is lib.LoadAll without iolib: creating the three standard file
+// objects (64 KiB buffers each) is 45% of the cost of a fresh runtime and no
+// corpus program touches io.  Order as in lib.LoadAll.
+func loadLibs(r *rt.Runtime) func() {
+	return lib.LoadLibs(r,
+		base.LibLoader,
+		packagelib.LibLoader,
+		coroutine.LibLoader,
+		stringlib.LibLoader,
+		tablelib.LibLoader,
+		mathlib.LibLoader,
+		utf8lib.LibLoader,
+		oslib.LibLoader,
+		debuglib.LibLoader,
+		golib.LibLoader,
+		runtimelib.LibLoader,
+	)
+}
 
 // cpuLimit bounds a run in the configurations that account CPU (everything
 // except noquotas): a diverging program shows as status "killed".  The check
@@ -79,7 +110,8 @@ func runOne(q *req) (r resp) {
 		}
 		args = append(args, v)
 	}
-	m := host.NewMachine(false)
+	m := host.NewMachine(true)
+	cleanup := loadLibs(m.R)
 	var def *rt.RuntimeContextDef
 	if rt.QuotasAvailable {
 		def = &rt.RuntimeContextDef{HardLimits: rt.RuntimeResources{Cpu: cpuLimit}}
@@ -94,6 +126,7 @@ func runOne(q *req) (r resp) {
 			}
 		}()
 		m.Close()
+		cleanup()
 	}()
 	r = resp{Status: o.Status, Results: o.Results, Err: o.Err, Trace: m.Trace}
 	if r.Results == nil {
@@ -108,7 +141,7 @@ func runOne(q *req) (r resp) {
 func main() {
 	// One mutator thread: golua coroutines are goroutines that hand over
 	// synchronously, on one P that is a plain goroutine switch instead of a
-	// futex wake-up of another thread (measured: 35% less CPU per program).
+	// futex wake-up of another thread (measured: half the CPU per program).
 	procs := 1
 	if v, err := strconv.Atoi(os.Getenv("C14_PROCS")); err == nil && v > 0 {
 		procs = v
